@@ -184,12 +184,21 @@ impl Check for C02 {
         }
     }
     fn generate(&self, seed: u64, idx: u64, tier: Tier) -> Value {
-        // cluster arm: one case in 48 is a full E2 cluster scenario, judged by the same
+        // cluster arm: one case in 47 is a full E2 cluster scenario, judged by the same
         // set-vs-store oracle on every node at the final quiescent point
-        if idx % 48 == 47 {
+        let arm = arm_split(idx, 47);
+        let idx = match arm {
+            Ok(_) => idx,
+            Err(main) => main,
+        };
+        if arm.is_ok() {
             let mut rng = rng_from(case_seed(seed ^ 0xC02E2, idx));
             let k = crate::e2::c01::GenKnobs { max_nodes: 4, max_ops: 30, span_ms: 12_000, level_bias_none: 0.4 };
-            let sc = if rng.gen_bool(0.3) { crate::e2::c01::gen_burst_scenario(&mut rng) } else { crate::e2::c01::gen_cluster_scenario(&mut rng, &k) };
+            let sc = match rng.gen_range(0..10) {
+                0..=2 => crate::e2::c01::gen_burst_scenario(&mut rng),
+                3..=5 => crate::e2::c01::gen_real_scenario(&mut rng),
+                _ => crate::e2::c01::gen_cluster_scenario(&mut rng, &k),
+            };
             return serde_json::json!({ "cluster": sc });
         }
         let enum_total = ENUM_SLOTS * if tier == Tier::Quick { ENUM_HISTORIES_QUICK } else { ENUM_HISTORIES_THOROUGH };
